@@ -35,13 +35,13 @@ PROPS = {
     },
     "C18": {
         "bin": "c18",
-        "explanation": "Mode O with a symbolic (recording / failing) custom strategy for Interp1D and Interp2D, generic over the declared minimum 0..3 (4): on every path where the strategy's build ran, z3 proves that the path condition at that "
+        "explanation": "Mode O with a symbolic (recording / failing) custom strategy for Interp1D and Interp2D, generic over the declared minimum 0..4: on every path where the strategy's build ran, z3 proves that the path condition at that "
                        "moment implies the received axes are strictly increasing (all IEEE values) and the lengths match and reach the minimum; interp_into receives exactly the caller's query terms, in order, with targets of the data shape minus "
                        "the interpolated axes, from all five entry points; failure injection in build and at every call index is a free boolean (each failure schedule is a path) and the error reaches the caller with the same variant and message; "
                        "index_point returns (axis[i], data[i]) as term identities and is_in_range is decided against the closed-range test.",
         "trusted_base": O_TRUST,
         "technique": "symbolic execution with a recording strategy whose failures are solver booleans; z3 QF_FP for 'validated before strategy.build' and is_in_range; term identity for pass-through of queries, targets and errors",
-        "level_text": "Bounded symbolic model checking over 210 (more thorough) configurations x all failure schedules x all axis / data / query values: the documented guarantees of the strategy traits hold for every user-defined strategy that behaves like the recording one.",
+        "level_text": "Bounded symbolic model checking over 711 (thorough 1101) configurations x all failure schedules x all axis / data / query values: the documented guarantees of the strategy traits hold for every user-defined strategy that behaves like the recording one.",
         "level_note": "Trusted: engine S, z3. Data ranks <= 4, minimum <= 4, batches <= 3. Strategies that panic are outside.",
     },
     "C19": {
@@ -113,7 +113,7 @@ PROPS = {
                        "forall i x_i < x_i+1 bit-precisely, boundary shape, periodic rows fp.eq) and Err(kind) => the requirement class of that kind is violated; panic paths are findings.",
         "trusted_base": O_TRUST,
         "technique": "symbolic execution of the real validation chain + z3 QF_FP over all axis / data values (NaN, ties, swaps as models) against an SMT oracle; native replay",
-        "level_text": "Bounded symbolic model checking of the full decision table (265 quick / more thorough structural cases) with all values symbolic: exact acceptance, matching error kind, no panic from construction to build.",
+        "level_text": "Bounded symbolic model checking of the full decision table (800 quick / 1120 thorough structural cases) with all values symbolic: exact acceptance, matching error kind, no panic from construction to build.",
         "level_note": "Trusted: engine S, z3 FP. Axis lengths <= 5. Found the constructor panic on dynamic data of too small rank (repaired by a fix: commit). monotonic_prop itself is also checked bit-precisely by C12 (engine K).",
     },
     "C09": {
@@ -134,7 +134,7 @@ PROPS = {
                        "outcome kind, shape and result terms (which also shows independence of the junk cells).",
         "trusted_base": O_TRUST + ["harness/src/layout.rs (unit-tested: every layout holds the same logical contents)", "harness/src/api.rs forwarding layer"],
         "technique": "symbolic execution over enumerated memory layouts with symbolic contents and junk cells; equality of outcomes and result terms (term identity / z3)",
-        "level_text": "Bounded symbolic model checking of layout independence for all data values over 5 non-standard layouts x 5 roles x query ranks 0..2 and dynamic (thorough ..3) x 4 (thorough 8) data configurations x all entry points.",
+        "level_text": "Bounded symbolic model checking of layout independence for all data values over 5 non-standard layouts x 5 roles x query ranks 0..3 and dynamic x 8 (thorough 11) data configurations x all entry points (1225 / 1680 scenarios).",
         "level_note": "Trusted: engine S, layout.rs, api.rs. Found the 'incompatible memory layout' panic of the general path (repaired by a fix: commit). Shared storage is covered by C19.",
     },
     "C14": {
@@ -144,7 +144,7 @@ PROPS = {
                        "count with another shape, wrong dynamic rank) and x/y query arrays of different shapes must have no Ok path.",
         "trusted_base": O_TRUST + ["harness/src/layout.rs", "harness/src/api.rs forwarding layer"],
         "technique": "symbolic execution with poison symbols in and around the caller's buffer; overwritten / untouched / equal-to-allocating as term identities; enumeration of wrong shapes",
-        "level_text": "Bounded symbolic model checking: exact-fill and rejection are decided for all data values over ~470 (thorough more) scenarios covering Interp1D and Interp2D, fast and general path, static and dynamic ranks, empty queries.",
+        "level_text": "Bounded symbolic model checking: exact-fill and rejection are decided for all data values over ~1340 (thorough ~1870) scenarios covering Interp1D and Interp2D, fast and general path, static and dynamic ranks, empty queries.",
         "level_note": "Trusted: engine S, layout.rs, api.rs. Found three genuine defects (general path accepted wrong shapes / rejected strided buffers; empty query on the fast path), all repaired by fix: commits. Wrong static ranks cannot be expressed (type system).",
     },
     "C08": {
@@ -164,7 +164,7 @@ PROPS = {
                        "for every lane (term identity or z3). A counterexample is replayed natively, also with NaN / inf poison in the non-shared samples.",
         "trusted_base": O_TRUST,
         "technique": "two-copy (non-interference) symbolic execution + z3 QF_FP/UF over all axis values, data (incl. NaN/inf poison) and queries; native poison replay",
-        "level_text": "Bounded symbolic model checking of 'depends only on the bracketing points' for all IEEE values: every bracket of Linear n = 3..4 (thorough 5) and every cell of 3x3 / 3x4 Bilinear grids, in range and extrapolated, 1-2 lanes. Catches hidden dependencies such as `+ 0*y_other` that exact-arithmetic reasoning and the tests cannot see.",
+        "level_text": "Bounded symbolic model checking of 'depends only on the bracketing points' for all IEEE values: every bracket of Linear n = 3..5 (thorough 6) and every cell of 3x3 / 3x4 / 4x3 / 3x2 / 4x2 Bilinear grids (thorough + 4x4, 2x4), in range and extrapolated, 1-2 lanes. Catches hidden dependencies such as `+ 0*y_other` that exact-arithmetic reasoning and the tests cannot see.",
         "level_note": "Trusted: engine S, z3. Sizes bounded. Assumes C11 for index-guess casts. Uninterpreted arithmetic: equality of results is shown by congruence (same operations on same operands), which is sound for every IEEE implementation of the operations.",
     },
     "C15": {
@@ -215,8 +215,8 @@ PROPS = {
                        "panic paths must be infeasible or are replayed natively.",
         "trusted_base": O_TRUST,
         "technique": "symbolic execution of the real generic code at a term-recording scalar + z3 QF_FP (IEEE comparisons bit-precise, arithmetic uninterpreted) over all axis values, data and queries incl. NaN/inf",
-        "level_text": "Bounded symbolic model checking over ALL IEEE doubles for axis, data and queries (NaN, +-inf, +-0 and the floats adjacent to the range ends are ordinary values of the sort), all strategies, 8 entry-point shapes incl. the rank-1 fast path and the general path, batches of 2 (thorough 3, 2x2). Right level: the property is purely about comparisons and control flow, which the solver decides bit-precisely for every value.",
-        "level_note": "Trusted: engine S, z3 FP theory. Assumes C11 (engine K) for the cast of the index guess on non-NaN in-range lookups (cut branches are counted in the evidence). n <= 3 quick / 4 thorough.",
+        "level_text": "Bounded symbolic model checking over ALL IEEE doubles for axis, data and queries (NaN, +-inf, +-0 and the floats adjacent to the range ends are ordinary values of the sort), all strategies, 8+ entry-point shapes incl. the rank-1 fast path and the general path, batches of 2, 3 and 2x2. Right level: the property is purely about comparisons and control flow, which the solver decides bit-precisely for every value.",
+        "level_note": "Trusted: engine S, z3 FP theory. Assumes C11 (engine K) for the cast of the index guess on non-NaN in-range lookups (cut branches are counted in the evidence). n <= 4 quick / 5 thorough.",
     },
     "C06": {
         "bin": "c06",
